@@ -20,6 +20,7 @@ const (
 	sigMultiMatrixLevel = "C18/dft/level-with-several-matrices-consumes-a-prime-per-matrix"
 	sigCISparse         = "C18/func/conjugate-invariant-input-sparser-than-LogSlots"
 	sigCopyN1           = "C18/copy/ShallowCopy-drops-xPow2InvN1"
+	sigPackLevel        = "C18/func/packing-sparse-ciphertexts-above-level-0"
 )
 
 // multiMatrixLevel reports whether a [level][scales] split puts several matrices on one prime.
@@ -140,6 +141,13 @@ func runFunctional(c *engine.Chooser, k cfg) {
 	res := s.res
 	realOnly := res.RingType() == ring.ConjugateInvariant
 	ctLog := k.ctLogSlots()
+	level := k.InLevel
+	if k.Iter != 0 {
+		level = res.MaxLevel()
+	}
+	if level > res.MaxLevel() {
+		level = res.MaxLevel()
+	}
 	// Input classes that hit a defect recorded in FINDINGS.md get that defect's single signature for whatever
 	// goes wrong after the bootstrap (error, level, scale, precision): one defect, one sig; every other leaf keeps the
 	// specific sigs. Key-level oracles above are not affected.
@@ -152,19 +160,15 @@ func runFunctional(c *engine.Chooser, k cfg) {
 	case k.Copy && (k.Residual == 1 || k.Residual == 3) && k.CtGap > 0 && k.Batch > 0:
 		// ShallowCopy + ring-degree switch + several sparse ciphertexts packed in the small ring
 		known = sigCopyN1
+	case !realOnly && k.Batch > 0 && level > 0 && ctLog < s.btp.LogMaxSlots():
+		// several sparse ciphertexts are packed into one before the bootstrap: the monomials used for that exist at level 0 only
+		known = sigPackLevel
 	}
 	fail := func(sig, format string, args ...interface{}) {
 		if known != "" {
 			sig = known
 		}
 		c.Fail(sig, format, args...)
-	}
-	level := k.InLevel
-	if k.Iter != 0 {
-		level = res.MaxLevel()
-	}
-	if level > res.MaxLevel() {
-		level = res.MaxLevel()
 	}
 	amp := 1.0
 	if k.Small {
